@@ -1,4 +1,5 @@
 import DriverLib.Basic
+import DriverLib.Flag
 import QV.Model.Cplx
 open Lean Drv QV QV.Cplx
 
@@ -113,9 +114,10 @@ def ringOp (c : Codec α) (fn : String) (j : Json) : Option (R Json) :=
   | "outer_prod" => some do return resOut c (outerProd (← X) (← Y))
   | "einsum" => some do
     let raw ← parseRawEq (← fld j "eq")
-    let rp ← jBool (← fld j "real_part")
-    let ip ← jBool (← fld j "imag_part")
-    match einsumS raw (← X) (← Y) rp ip with
+    -- the flag OBJECTS (a plain JSON bool = the Python singleton; else {"form", "value"})
+    let rp ← parseFlag (← fld j "real_part")
+    let ip ← parseFlag (← fld j "imag_part")
+    match einsumF raw (← X) (← Y) rp ip with
     | .ok (.cplx t) => return Json.mkObj [("kind", .str "cplx"), ("t", tensorOut c t)]
     | .ok (.re t) => return Json.mkObj [("kind", .str "real"), ("t", tensorOut c t)]
     | .ok .none => return Json.mkObj [("kind", .str "none")]
